@@ -106,6 +106,8 @@ pub fn record(out_path: &str, count: u64, panics: bool) {
         // documents whose first line is indented (the chunk must keep the indentation), also after '...'
         ("indented-seq".into(), b"  - a\n  - b\n".to_vec()), ("indented-map".into(), b"# c\n   a: 1\n   b:\n     - 2\n".to_vec()),
         ("indented-marker-lookalike".into(), b"  ---\n".to_vec()), ("indented-after-end".into(), b"--- x\n...\n  k: v\n  l: w\n...\n \"q\"\n".to_vec()),
+        // anchors and aliases (an ALIAS event owns a copy of the anchor name)
+        ("aliases".into(), b"a: &x [1, 2]\nb: *x\nc: {d: *x, e: &yy s, f: *yy}\n---\n- &z z\n- *z\n- *z\n".to_vec()),
         ("directive-then-error".into(), b"%YAML 1.1\n%TAG !e! tag:example.com,2000:\n---\n- [unclosed\n".to_vec())];
     // every boundary of the surrogate ranges, unpaired and paired, in both byte orders
     for (i, units) in [vec![0xd7ffu16], vec![0xd800], vec![0xdbff], vec![0xdc00], vec![0xdfff], vec![0xe000], vec![0xd800, 0xdc00], vec![0xdbff, 0xdfff],
@@ -138,7 +140,7 @@ pub fn record(out_path: &str, count: u64, panics: bool) {
         }
     }
     // UTF-32 code units that are no scalar values: beyond U+10FFFF and inside the surrogate range
-    for (i, unit) in [0x0011_0000u32, 0x0011_0001, 0x7fff_ffff, 0xffff_ffff, 0xd800, 0xdfff, 0x0010_ffff].into_iter().enumerate() {
+    for (i, unit) in [0x0011_0000u32, 0x0011_0001, 0x7fff_ffff, 0xffff_ffff, 0xd800, 0xdfff, 0x0010_ffff, 0x0020_0041, 0x8001_f600, 0x0100_0061].into_iter().enumerate() {
         for le in [true, false] {
             let mut b: Vec<u8> = vec![];
             for u in [0xfeffu32, 'a' as u32, ':' as u32, ' ' as u32, '"' as u32, unit, '"' as u32, '\n' as u32] {
